@@ -64,11 +64,33 @@ pub const SLEEP_LENS: [usize; 8] = [300, 645, 700, 1023, 1030, 1100, 4956, 5200]
 ///              below the spike but above everything else (the evicted extreme is replaced by the value
 ///              just written), repeated with slowly decaying spikes;
 ///  pattern 1 — a non-decreasing run (with ties) of n+k inputs, then one value below the whole window;
-///  pattern 2, 3 — the mirror images (dips / non-increasing run then a value above the window).
+///  pattern 2, 3 — the mirror images (dips / non-increasing run then a value above the window);
+///  pattern 4, 5 — a level M touched at input `phase` and again (bit-identical) j inputs later, broken by a
+///              strictly higher value exactly n inputs after the first touch (and the mirror image).
 pub fn extreme_stress(n: usize, phase: usize, pattern: usize, seed: u64) -> Vec<f64> {
     let mut st = seed;
     let len = 4 * n + phase + 8;
     let mut v = Vec::with_capacity(len);
+    if pattern % 6 >= 4 {
+        let j = 1 + (crate::fw::splitmix(&mut st) as usize) % n.max(2).saturating_sub(1).max(1);
+        let mut level = 500.0;
+        for i in 0..len {
+            let u = crate::fw::unit(&mut st);
+            let x = if i >= phase && (i - phase) % (2 * n) == 0 {
+                level
+            } else if i >= phase + j && (i - phase - j) % (2 * n) == 0 && j < n {
+                level
+            } else if i >= phase + n && (i - phase - n) % (2 * n) == 0 {
+                // break-out exactly n inputs after the first touch; the next cycle uses the new level
+                level += 25.0;
+                level - 12.5
+            } else {
+                10.0 + u
+            };
+            v.push(if pattern % 6 == 4 { x } else { 5000.0 - x });
+        }
+        return v;
+    }
     match pattern % 4 {
         0 | 2 => {
             let mut spike = 1000.0;
